@@ -178,6 +178,13 @@ def run(ctx):
         esl = flows.slice(b.path, fl._op_reads(c.args[1]), up=False, down=True, data_only=False)
         ecal = callees_in(prog, esl)
         efs = fields_in(esl)
+        if name in ("reverse", "set_all_edge_weights"):
+            # every stored edge has its counterpart in the result: between the edge store and the constructor no
+            # operation selects some of them (first / take / filter / dedup ..)
+            dsl = flows.slice(b.path, fl._op_reads(c.args[1]), up=False, down=True, data_only=True)
+            dropping = sorted({x.split("::")[-1] for x in callees_in(prog, dsl)} & {"first", "last", "take", "skip", "nth", "step_by", "find", "find_map", "min", "max", "min_by", "max_by", "min_by_key", "max_by_key", "take_while", "skip_while", "pop", "truncate", "filter", "filter_map", "dedup", "dedup_by", "dedup_by_key", "unique", "unique_by", "retain", "drain", "split_off", "first_mut", "last_mut", "get"})
+            ctx.require(not dropping, "R-C15-4", "edges-all|" + name, "%s hands every stored edge to the constructor (no selecting operation on the way)" % name,
+                        "%s passes its edges through %s between the edge store and the constructor: only some of the stored edges (one per pair, a prefix ..) reach the result, so on a multi-edge graph the derived graph has fewer edges than its source" % (name, "/".join(dropping)), loc_str(c.span))
         if name == "reverse":
             ok4 = any(x.endswith("Edge::reversed") for x in ecal) and "edges" in efs
             ctx.require(ok4, "R-C15-4", "edges|reverse", "every edge of the result passes through Edge::reversed", "reverse does not map its edges through Edge::reversed", loc_str(c.span))
